@@ -41,14 +41,14 @@ MECHANISMS = [
 REQUIRED_MONITORS = ['tree_parses', 'tree_equals_model', 'contract:XmlStream.stacks', 'contract:XmlStream.exit', 'index_xml_parses',
                      'index_entries', 'index_rle_expansion', 'index_strings_recovered', 'html_rp66v1_parses', 'html_las_parses',
                      'html_lis_parses', 'svg_parses']
-MIN_NONTRIVIAL = {'quick': 5000, 'thorough': 60000}
+MIN_NONTRIVIAL = {'quick': 5000, 'thorough': 150000}
 TIMEOUT_S = {'quick': 400, 'thorough': 3300}
 NSHARDS = 16
-N_TREES = {'quick': 1000, 'thorough': 12000}
-N_RP66 = {'quick': 12, 'thorough': 160}
-N_LAS = {'quick': 8, 'thorough': 120}
-N_LIS = {'quick': 3, 'thorough': 24}
-N_SVG = {'quick': 2, 'thorough': 30}
+N_TREES = {'quick': 1000, 'thorough': 30000}
+N_RP66 = {'quick': 12, 'thorough': 300}
+N_LAS = {'quick': 8, 'thorough': 200}
+N_LIS = {'quick': 3, 'thorough': 40}
+N_SVG = {'quick': 2, 'thorough': 60}
 EPS = sys.float_info.epsilon
 XHTML_NS = 'http://www.w3.org/1999/xhtml'
 SVG_NS = 'http://www.w3.org/2000/svg'
